@@ -28,6 +28,10 @@ type StoreCall struct {
 	Bytes []byte
 }
 
+// storeHandle is one more handle onto the same store: a distinct Persist value (as a program
+// that opens a handle per LoadMast would have) with the same prefix, contents and recording.
+type storeHandle struct{ *RecStore }
+
 func NewRecStore(prefix string) *RecStore {
 	return &RecStore{m: map[string][]byte{}, Prefix: prefix}
 }
